@@ -17,7 +17,7 @@ META = {
     "bounds": [
         "containers with 1-3 fields incl. a dual field of different size and a mesh with a point without cells (first / last point number; vector + scalar field on the same mesh); masks: point masks, dof masks; overlapping boundaries; scalar and array values",
         "coordinate predicates: one quad cell with symbolic corner coordinates (8 variables), fx / fy values, modes or/and, skip tuples: every feasible mask pattern is a path (bounded 64)",
-        "load cases symmetry / uniaxial / biaxial / shear with all axis / sym / clamped arguments on a 3x3 (2-D) and 2x2x2 (3-D) grid whose side lengths are symbolic",
+        "load cases symmetry / uniaxial / biaxial / shear with all axis / sym / clamped arguments on a 3x3 (2-D) and 2x2x2 (3-D) grid whose side lengths are symbolic (lower faces at 0.5 / -1 / 2 on axes without a symmetry plane)",
     ],
     "outside": ["meshes with more points (no induction)", "callable predicates other than the ones listed", "IEEE rounding of isclose"],
     "assumptions": ["side lengths >= 0.1 (grid points are separated by more than the isclose tolerance)"],
@@ -259,8 +259,8 @@ def case_predicates(ctx, mode, skip, which):
     ctx.check_concrete("dof_and_points_tables", sorted(b.dof.tolist()) == [2 * p + c for p in range(4) for c in range(2) if mask[p, c]] and list(b.points) == [p for p in range(4) if mask[p].any()])
 
 
-def grid(ctx, dim):
-    """grid with symbolic side lengths: points = index * side / (n-1)"""
+def grid(ctx, dim, offset=None):
+    """grid with symbolic side lengths: points = offset + index * side / (n-1)"""
     with ctx.concrete():
         if dim == 2:
             m = fem.Rectangle(n=3)
@@ -272,7 +272,8 @@ def grid(ctx, dim):
         idx = np.rint(m.points * ((3 if dim == 2 else 2) - 1)).astype(int)
     L = ctx.array("L", (dim,), 0.1, 3)
     nn = (3 if dim == 2 else 2) - 1
-    m.points = np.array([[L[a] * int(idx[p, a]) / nn for a in range(dim)] for p in range(m.npoints)], dtype=object if ctx.sym else float)
+    off = [0, 0, 0] if offset is None else offset
+    m.points = np.array([[L[a] * int(idx[p, a]) / nn + off[a] for a in range(dim)] for p in range(m.npoints)], dtype=object if ctx.sym else float)
     return m, field, idx, nn
 
 
@@ -290,7 +291,12 @@ def _expect(ctx, name, dim, idx, nn, rules, dof0, ext0, npnt):
 
 
 def case_loadcase(ctx, which, dim, axis=0, sym=True, clamped=False, axes=(0, 1)):
-    m, field, idx, nn = grid(ctx, dim)
+    offset = None
+    if which in ("uniaxial", "biaxial"):
+        # axes without a symmetry plane: the lower face is NOT at 0 and differs from axis to axis (dyadic offsets)
+        st = (sym, sym, sym) if not hasattr(sym, "__len__") else tuple(bool(x) for x in sym)
+        offset = [0 if st[a] else (0.5, -1.0, 2.0)[a] for a in range(dim)]
+    m, field, idx, nn = grid(ctx, dim, offset)
     sym_values(ctx, field, tag="u")
     f = field[0]
     npnt = m.npoints
